@@ -13,6 +13,10 @@ CONSTANTS
   MaxSteps = 2
   SizeClasses <- AllSizes
   UnitLens <- UnitLensSmall
+  Setups <- SetupsDef
+  AuthSetups <- AuthSetupsDef
+  Forms <- FormsDef
+  AltForm <- AltFormDef
   Variant = "ok"
 INVARIANT NeverReusesPath
 CHECK_DEADLOCK FALSE
